@@ -148,7 +148,7 @@ def ballast(rnd, outer, k, tag):
     return [inner, b, b]
 
 
-def twin_trees(rnd, n):
+def twin_trees(rnd, n, kmax=3):
     """Order twins in different operands: a group (or a small compound) G on one side, the same G with its
     values/children in another order on the other, with self-combined ballast that makes the un-normalised
     candidate of union()/intersection() the cheapest one."""
@@ -173,7 +173,7 @@ def twin_trees(rnd, n):
         shape = i % 6
         # sizes are bounded by the library's own cost: a self-combined 4-clause ballast alone takes > 20 s,
         # and two ballasts of 3 + 2 clauses in one expression likewise
-        k = 2 if shape in (2, 3) else rnd.choice([2, 3, 3])
+        k = 2 if shape in (2, 3) or kmax < 3 else rnd.choice([2, 3, 3])
         b1, b2 = ballast(rnd, outer, k, "s"), ballast(rnd, outer, 2, "t")
         x = [top, g, b1]
         if shape == 0:
@@ -188,6 +188,117 @@ def twin_trees(rnd, n):
             yield [top, [top, b1, g], [top, b1, g2]]
         else:
             yield [outer, [top, [top, x, g2], ["m", 'python_version >= "3.8"']], ["m", f'{var} {gop} "{vals[0]}"']]
+
+
+def wide_trees(rnd, n):
+    """Compounds with 33-70 direct children (long platform lists of a lock file, long exclusion chains): only
+    shapes whose cost stays linear - a union of conjunctions read by the parser, a conjunction of version
+    exclusions - under only/exclude/without_extras, & with an atom / another wide union, and re-rendering.
+    (`|` on such a union and a wide conjunction of alternatives are exponential in the library itself.)"""
+    svars = ["sys_platform", "platform_machine", "os_name", "implementation_name", "platform_system"]
+    for i in range(n):
+        k = rnd.choice([33, 34, 40, 47, 63, 65, 70])
+        v1, v2, v3 = rnd.sample(svars, 3)
+        kind = i % 4
+        if kind == 0:
+            text = " or ".join(f'({v1} == "p{j}" and {v2} == "a{j}")' for j in range(k))
+        elif kind == 1:
+            text = " or ".join((f'({v1} == "p{j}" and {v2} == "a{j}" and extra == "e{j % 5}")' if j % 3 else
+                                f'({v1} == "p{j}" and {v3} != "z{j}")') for j in range(k))
+        elif kind == 2:
+            var = rnd.choice(["python_version", "python_full_version"])
+            lits = [f"3.{j}" if var == "python_version" else f"3.{j % 13}.{j}" for j in range(k)]
+            text = " and ".join([f'{var} != "{x}"' for x in lits] + [f'{v1} != "p0"', f'{v2} == "a1"'][:rnd.randint(0, 2)])
+        else:
+            text = " or ".join(f'({v1} == "p{j}" and python_version >= "3.{j % 12}" and {v2} != "a{j}")' for j in range(k))
+        w = ["m", text]
+        names = [x for x in (v1, v2, v3, "extra", "python_version", "python_full_version") if x in text]
+        ops = [["only", w, [names[0]]], ["only", w, names[:2]], ["only", w, names], ["exclude", w, names[0]],
+               ["exclude", w, names[-1]], ["exclude", w, "platform_release"], ["noextras", w], ["str", w]]
+        if kind in (0, 2):   # (with extras / three-atom alternatives the library's & is already exponential)
+            ops += [["and", w, ["m", f'{v3} == "q"']], ["and", ["m", f'{v1} != "p{k - 1}"'], w],
+                    ["only", ["and", w, ["m", f'{v3} == "q"']], [v3, names[0]]],
+                    ["exclude", ["and", w, ["m", f'{v3} == "q"']], v3]]
+        if kind == 2:
+            ops += [["and", w, ["m", 'python_version >= "3.5"']]]
+        for t in rnd.sample(ops, 5):
+            yield t
+
+
+_FLAT_NAMES = ["os_name", "sys_platform", "platform_machine", "platform_system", "implementation_name",
+               "platform_python_implementation", "platform_version", "implementation_version"]
+
+
+def _flat_union(rnd, tag, k, extra=None):
+    # distinct variables first (alternatives on one variable would merge into a single group child)
+    names = rnd.sample(_FLAT_NAMES, min(k - (1 if extra else 0), len(_FLAT_NAMES)))
+    atoms = [["m", f'{n} == "{tag}{i}"'] for i, n in enumerate(names)]
+    if extra:
+        atoms.insert(rnd.randrange(len(atoms) + 1), ["m", f'extra == "{extra}"'])
+    while len(atoms) < k:
+        n = rnd.choice(_FLAT_NAMES)
+        atoms.append(["m", f'{n} != "{tag}x{len(atoms)}"'] if rnd.random() < 0.3 else ["m", f'python_version == "3.{len(atoms)}"'])
+    return _chain("or", atoms)
+
+
+def heavy_trees(rnd, n, first=0):
+    """Sizes at which the library switches from 'instant' to 'seconds': (a) an intersection of three flat k-way
+    unions (term products of 500-700 combinations) with one `extra` alternative in each operand - extras are the
+    one variable for which two different `==` atoms can hold together; (b) a union over more than ten distinct
+    atoms that contains a conjunction and its operand-order twin in different operands."""
+    for i in range(first, first + n):
+        if i % 2 == 0:
+            k = rnd.choice([7, 9, 9])
+            a, b, c = (_flat_union(rnd, t, k, e) for t, e in (("a", "x"), ("b", "y"), ("c", "z")))
+            yield rnd.choice([["and", ["and", a, b], c], ["and", c, ["and", a, b]], ["and", ["and", a, c], ["and", b, c]]])
+        else:
+            v = rnd.sample(_FLAT_NAMES, 3)
+            g = _chain("and", [["m", f'{x} == "g{j}"'] for j, x in enumerate(v)][:rnd.choice([2, 3])])
+            g2 = order_twin(rnd, g, 1.0)
+            flat = _flat_union(rnd, "f", rnd.choice([9, 10, 12]), rnd.choice([None, "x"]))
+            yield rnd.choice([["or", ["or", g, g2], flat], ["or", g, ["or", g2, flat]], ["or", ["or", g, flat], g2],
+                              ["or", ["or", flat, g], ["or", g2, ["m", 'python_version >= "3.8"']]]])
+
+
+def size_strata(ctx, run_tree, light=False):
+    """Order twins, wide compounds and heavy term products (each with its own time cap).  light: for checks whose
+    per-call oracles make every case several times dearer (fewer cases, two-clause ballast only)."""
+    rnd = ctx.rnd
+    q = ctx.tier == "quick"
+    ctx.stratum = "twins"
+    n_tw = 0
+    t_tw = ctx.elapsed()
+    for t in twin_trees(rnd, (8 if light else 24) if q else (150 if light else 400), kmax=2 if light else 3):
+        if ctx.elapsed() - t_tw > ((10 if light else 20) if q else 200):
+            break
+        run_tree(t)
+        n_tw += 1
+    ctx.extra["order_twin_cases"] = n_tw
+    ctx.stratum = "wide"
+    n_w = 0
+    t_w = ctx.elapsed()
+    for t in wide_trees(rnd, (2 if light else 4) if q else 60):
+        if ctx.elapsed() - t_w > (15 if ctx.tier == "quick" else 200):
+            break
+        run_tree(t)
+        n_w += 1
+    ctx.extra["wide_compound_cases"] = n_w
+    ctx.stratum = "heavy"
+    n_h = 0
+    t_h = ctx.elapsed()
+    ctx.watchdog_floor = 45.0
+    ctx.boundary_only = True
+    try:
+        for t in heavy_trees(rnd, 1 if q else 16, first=ctx.shard + ctx.seed):
+            if ctx.elapsed() - t_h > (40 if ctx.tier == "quick" else 300):
+                break
+            run_tree(t)
+            n_h += 1
+    finally:
+        ctx.watchdog_floor = 0
+        ctx.boundary_only = False
+    ctx.extra["heavy_cases"] = n_h
+    ctx.stratum = "main"
 
 
 def run_trees(ctx, run_tree, *, n_random, max_atoms, unary_p=0.3, small_frac=1.0, cfg=None, seconds=None):
@@ -211,14 +322,7 @@ def run_trees(ctx, run_tree, *, n_random, max_atoms, unary_p=0.3, small_frac=1.0
         run_tree(t)
         cnt += 1
     ctx.extra["small_scope_cases"] = cnt
-    ctx.stratum = "twins"
-    n_tw = 0
-    for t in twin_trees(rnd, 24 if ctx.tier == "quick" else 400):
-        if ctx.elapsed() - t_small > (55 if ctx.tier == "quick" else 400):
-            break
-        run_tree(t)
-        n_tw += 1
-    ctx.extra["order_twin_cases"] = n_tw
+    size_strata(ctx, run_tree)
     ctx.stratum = "main"
     cfg = cfg or MW.Cfg()
     closure = []
@@ -233,13 +337,20 @@ def run_trees(ctx, run_tree, *, n_random, max_atoms, unary_p=0.3, small_frac=1.0
         if rnd.random() < 0.3:
             # a compound combined with one of its OWN direct children (absorption shapes: X | p, p & X ...)
             kids = []
-            with MM.oracle():
-                try:
-                    v = MW.build(tree)
-                    if hasattr(v, "markers") and len(v.markers) >= 2:
-                        kids = [str(c) for c in v.markers[:3] if str(c) and "<empty>" not in str(c)]
-                except Exception:  # noqa: BLE001
-                    kids = []
+
+            def own_children():
+                with MM.oracle():
+                    try:
+                        v = MW.build(tree)
+                        if hasattr(v, "markers") and len(v.markers) >= 2:
+                            return [str(c) for c in v.markers[:3] if str(c) and "<empty>" not in str(c)]
+                    except Exception:  # noqa: BLE001
+                        pass
+                return []
+
+            # (a tree whose evaluation just hit the watchdog would otherwise be rebuilt here without one)
+            ok, got = ctx.guarded(5.0, own_children)
+            kids = got if ok and got else []
             for ktext in kids:
                 for op in ("or", "and"):
                     run_tree([op, tree, ["m", ktext]])
